@@ -24,6 +24,8 @@ FIRST = {
     "C01-d": "input", "C02-d": "oblig", "C03-d": "input", "C04-d": "oblig", "C05-d": "input", "C06-d": "input", "C07-d": "input",
     "C08-d": "input", "C09-d": "input", "C10-d": "input", "C11-d": "oblig", "C12-d": "input", "C13-d": "oblig", "C14-d": "input",
     "C15-d": "input", "C16-d": "oblig", "C17-d": "oblig", "C18-d": "input", "C19-d": "input", "C20-d": "oblig",
+    # round e ("a second, less travelled place")
+    "C02-e": "oblig", "C04-e": "input", "C11-e": "missed", "C13-e": "oblig", "C16-e": "input", "C17-e": "oblig", "C20-e": "input",
 }
 
 # what was strengthened because of the defect (empty = nothing needed)
@@ -57,6 +59,10 @@ STRENGTHENED = {
     "C13-d": "the failed-verification state made to last (list signed by a key no chain contains) under 12 handshake goroutines and ticks",
     "C17-d": "a DER CRL without any 0x0A octet before its signature (1.2 million entries) and a fast HeapAlloc sampler without forced collections",
     "C20-d": "exclusivity scenario: refused Provision + Cleanup of the refused module must not release the holder's work_dir",
+    "C02-e": "two issuers with rearranged names and one serial: the second certificate's revoked answer must not lose to the first one's cache entry",
+    "C11-e": "issuer names of the same attributes in another order / grouping / with attributes crypto/x509 has no field for; fingerprints of ParseIssuerRDNSequence & co. (was outside every pattern)",
+    "C13-e": "failed store swap vs Repository.Close vs lookup, 250 rounds with seeded microsecond jitter",
+    "C17-e": "heap peaks per phase: outside of the parsing phase (download, detection, first pass, fingerprinting, swap) the peak must not depend on N",
 }
 
 WORD = {"input": "caught, concrete input", "oblig": "caught, obligation only (no-failing-input-found)", "missed": "MISSED", None: "?"}
